@@ -420,7 +420,7 @@ def r12(ctx: Ctx, rid: str = "C10.R12") -> None:
 
 def r13(ctx: Ctx, rid: str = "C10.R13") -> None:
     ctx.rule(rid, "versions increase: the new metadata file is numbered <resolved current version> + 1; the constant start value "
-             "is used only when no version could be resolved", 2)
+             "is used only when no version could be resolved", 1)
     f = ctx.fn(MM + ".commit")
     g = ctx.cfg(f)
     sl = ctx.slicer(f)
@@ -442,7 +442,7 @@ def r13(ctx: Ctx, rid: str = "C10.R13") -> None:
         for d in sorted(org["nodes"]):
             dn = g.nodes[d]
             if dn.kind == "stmt" and isinstance(dn.ast, ast.Assign) and len(dn.ast.targets) == 1 and isinstance(dn.ast.targets[0], ast.Name) \
-                    and dn.ast.targets[0].id in vnames and isinstance(dn.ast.value, ast.Constant) and isinstance(dn.ast.value.value, int) \
+                    and isinstance(dn.ast.value, ast.Constant) and isinstance(dn.ast.value.value, int) \
                     and not isinstance(dn.ast.value.value, bool):
                 v = dn.ast.targets[0].id
                 # the initial `= None` declaration is not an int constant; a second constant needs the null fact
